@@ -149,7 +149,8 @@ func vHosts(f *File, ti int, mt reflect.Type) bool {
 // vStringArrayData prepares the data of a string-array definition. The
 // splitter forks on every byte (terminator or not), 2^size paths, so: sizes
 // 0..6 are fully symbolic; larger sizes get non-zero bytes with one
-// terminator at an arbitrary position (or none); thorough: two terminators.
+// terminator at an arbitrary position (or none); thorough: two terminators
+// for sizes up to 24.
 func vStringArrayData(fd *fieldDef, data []byte, thorough bool) {
 	fd.size = byte(vConcretize(int(fd.size)))
 	n := int(fd.size)
@@ -164,7 +165,7 @@ func vStringArrayData(fd *fieldDef, data []byte, thorough bool) {
 	if p < n {
 		data[p] = 0
 	}
-	if thorough {
+	if thorough && n <= 24 {
 		q := vConcretize(vInt(0, n))
 		if q < n {
 			data[q] = 0
